@@ -34,8 +34,9 @@ fn main() {
             let nsteps: usize = arg(&args, "--steps", "60").parse().unwrap();
             let mut rng = StdRng::seed_from_u64(seed);
             for i in 0..traces {
-                if profile == "wide" || profile == "bigrtt" {
-                    let (cfg, script) = if profile == "wide" { steps::wide_script(&mut rng) } else { steps::bigrtt_script(&mut rng) };
+                if profile == "wide" || profile == "bigrtt" || profile == "ltmark" {
+                    let (cfg, script) = if profile == "wide" { steps::wide_script(&mut rng) }
+                        else if profile == "ltmark" { steps::ltmark_script(&mut rng) } else { steps::bigrtt_script(&mut rng) };
                     let tseed: u64 = rng.random();
                     let Ok(mut d) = Driver::new(cfg.clone(), tseed) else { continue };
                     let mut done: Vec<Value> = Vec::new();
